@@ -61,4 +61,12 @@ theorem cr_refused_after_unprotected_url (c0 c : Creds) (h : ∃ kv ∈ pairs c,
 example : (buffer true [([104], [[97, 98]]), ([112], [[120]])]).isSome = true := by decide
 example : buffer true [([104], [[97, 10, 98]])] = none := by decide
 
+/-- tie to creds/creds.go: URL-scoped credential settings (protectProtocol among them) are looked up with scheme, host and the ESCAPED path of the URL being served -/
+theorem gen_credential_settings_url :
+    Gen.credConfigURL =
+      [
+       -- "%s://%s%s", u.Scheme, u.Host, u.EscapedPath() | 
+       [34, 37, 115, 58, 47, 47, 37, 115, 37, 115, 34, 44, 32, 117, 46, 83, 99, 104, 101, 109, 101, 44, 32, 117, 46, 72, 111, 115, 116, 44, 32, 117, 46, 69, 115, 99, 97, 112, 101, 100, 80, 97, 116, 104, 40, 41, 32, 124, 32]
+      ] := by decide
+
 end C17
